@@ -9,6 +9,7 @@
 
 typedef struct {
 	const char *harness; const void *param; size_t nparam; int bound; const char *label;
+	int unlock_points;      /* vs_unlock_points for the exploration window of every execution (0: scheduling points at acquisitions only) */
 	/* results */
 	long schedules_by_cost[8]; int completed_bound; long distinct_outcomes; long contended_execs; long choice_points;
 	int exhaustive;
